@@ -1,6 +1,7 @@
 /- driver for CDCN lines (C10, C11, C12) -/
 import Driver.CollDrv
 import CollectionModel.Model.Cdcn.Parse
+import CollectionModel.Model.Cdcn.Format
 import CollectionModel.Model.SetM
 open Lean CM CM.Cdcn
 
@@ -108,5 +109,103 @@ def cdcnLine (j : Json) : String :=
   let corr := if !scanOk then some "scanner" else if !corrParse then some "parser" else none
   verdict corr.isNone spec.isNone s!"{pid}/{spec.getD "ok"}/{str j "gen"}"
     s!"corr-break:{corr.getD "-"} model={parsedStr m} tokens={toks.length}"
+
+end Drv
+
+namespace Drv
+open CM.Cdcn
+
+partial def hasWideMap : Val → Bool
+  | .gomap _ _ es => es.length ≥ 2 || es.any (fun e => hasWideMap e.2)
+  | .arr _ _ xs => xs.any hasWideMap
+  | .coll _ xs => xs.any hasWideMap
+  | .assoc _ v => hasWideMap v
+  | _ => false
+
+partial def nesting : Val → Nat
+  | .gomap _ _ es => 1 + es.foldl (fun m e => Nat.max m (nesting e.2)) 0
+  | .arr _ _ xs => 1 + xs.foldl (fun m x => Nat.max m (nesting x)) 0
+  | .coll _ xs => 1 + xs.foldl (fun m x => Nat.max m (nesting x)) 0
+  | .assoc _ v => nesting v
+  | _ => 0
+
+def splitLines (t : List Nat) : List (List Nat) :=
+  (t.foldr (fun c (acc : List (List Nat)) => if c == 10 then [] :: acc else
+    match acc with | l :: ls => (c :: l) :: ls | [] => [[c]]) [[]])
+
+def lexLe : List Nat → List Nat → Bool
+  | [], _ => true
+  | _ :: _, [] => false
+  | a :: as, b :: bs => a < b || (a == b && lexLe as bs)
+
+/-- insertion sort of lines (texts of unordered Maps are compared as multisets of lines) -/
+def sortLines (ls : List (List Nat)) : List (List Nat) :=
+  ls.foldl (fun acc l =>
+    let (lo, hi) := acc.span (fun x => lexLe x l)
+    lo ++ l :: hi) []
+
+def sameText (wide : Bool) (a b : List Nat) : Bool :=
+  if wide then sortLines (splitLines a) == sortLines (splitLines b) else a == b
+
+def containsDots (t : List Nat) : Bool :=
+  let rec go : List Nat → Bool
+    | 46 :: 46 :: 46 :: _ => true
+    | _ :: r => go r
+    | [] => false
+  go t
+
+def rtLine (j : Json) : String :=
+  let v := parseVal (fld j "v")
+  let wide := hasWideMap v
+  let leaves : List (Val × List Nat) := (arr j "leaves").toList.map fun e =>
+    match e.getArr? with
+    | .ok a => (parseVal (a.getD 0 Json.null), nats (a.getD 1 Json.null) "text")
+    | _ => (.undef, [])
+  let leafText : Val → Option (List Nat) := fun x => (leaves.find? (fun p => valEq p.1 x && (p.1.tcode == x.tcode))).map (·.2)
+  let m := formatValue leafText 8 (4 * (Coll.Val.size v) + 16) v
+  let deep := nesting v > 8
+  if str j "fmt" != "ret" then
+    verdict (m != .hang && (match m with | .ok _ => false | _ => true)) false s!"C10/format-{str j "fmt"}/{str j "gen"}" "format did not return"
+  else
+  let text := nats j "text"
+  let corrFmt := match m with | .ok t => sameText wide t text | _ => false
+  -- parse the real text with the parser model
+  let toks := scan text
+  let convs := (arr j "conv").toList
+  let table : List ((Nat × Nat) × Option Val) := (toks.zip convs).map fun p =>
+    ((p.1.line, p.1.pos), if p.2.isNull then none else some (parseVal p.2))
+  let env : Env := { stackSize := 4, nlines := nat j "nlines",
+                     conv := fun t => ((table.find? (fun e => e.1 == (t.line, t.pos))).map (·.2)).getD none,
+                     mkSet := mkSetModel }
+  let pm := parseTokens env (4 * toks.length + 16) toks
+  let pj := fld j "parse"
+  let out := str pj "out"
+  let implV := parseVal (fld pj "v")
+  let corrParse := match pm with
+    | .value x => out == "ret" && valEq x implV
+    | .diag t => out == "panic" && str pj "pc" == "syntax" && nat pj "line" == t.line && nat pj "pos" == t.pos
+    | _ => false
+  let canon := bool j "canon"
+  let spec : Option String :=
+    if deep then firstFail [("deep-nest-not-elided", containsDots text)]
+    else firstFail [
+      ("formatted-text-rejected", out == "ret"),
+      ("parsed-value-differs", !canon || valEq implV v),
+      ("compare-says-unequal", !canon || bool j "eq"),
+      ("text-not-a-fixpoint-reordered", !(str j "fmt2" == "ret" && !sameText wide (nats j "text2") text
+          && sameText true (nats j "text2") text)),
+      ("text-not-a-fixpoint", str j "fmt2" == "ret" && sameText wide (nats j "text2") text),
+      ("scanner-goroutine-left-behind", !bool pj "leak")]
+  let corr := if !corrFmt then some "formatter" else if !corrParse then some "parser" else none
+  let mtxt := match m with | .ok t => String.ofList (t.map Char.ofNat) | .lib => "<lib panic>" | .hang => "<hang>"
+  verdict corr.isNone spec.isNone s!"C10/{spec.getD "ok"}/{str j "gen"}" s!"corr-break:{corr.getD "-"}{if corrFmt then "" else " model-text=" ++ mtxt}"
+
+def rtseqLine (j : Json) : String :=
+  let same := str j "fmt" == "ret" && sortLines (splitLines (nats j "fresh")) == sortLines (splitLines (nats j "after"))
+  verdict true same "C10/text-depends-on-earlier-calls/seq" ""
+
+def rtcycLine (j : Json) : String :=
+  let ok := str j "status" == "ok" && bool j "elided"
+  verdict true ok s!"C10/self-containing-{str j "status"}/cyc" ""
 
 end Drv
